@@ -512,15 +512,18 @@ pub fn extract(src: &str) -> Result<Extracted, String> {
         }
         quasiterminal_kinds[idx] = nm.clone();
     }
-    let mut nonterminal_kinds = vec![String::new(); nk.len()];
+    // one slot per column of the goto table: the kind whose discriminant selects that column ("" = no kind does).
+    // `get_goto` indexes the table with `kind as usize`, so this is the effective column assignment even if the
+    // kind enum and the table disagree in width.
+    let mut nonterminal_kinds = vec![String::new(); goto_t.cols];
     for (pos, (nm, d)) in nk.iter().enumerate() {
         let idx = d.unwrap_or(pos);
-        if idx >= nk.len() {
-            return Err("nonterminal kind discriminant out of range".into());
+        if idx >= goto_t.cols {
+            return Err("nonterminal kind discriminant beyond the goto table".into());
         }
         nonterminal_kinds[idx] = nm.clone();
     }
-    if quasiterminal_kinds.len() != act_t.cols || nonterminal_kinds.len() != goto_t.cols {
+    if quasiterminal_kinds.len() != act_t.cols {
         return Err("kind enums do not match the table widths".into());
     }
 
